@@ -8,6 +8,7 @@ package http
 
 //@ func http.Handler.ServeHTTP
 //@   params h w r
+//@   local msgType = UnOp#11 | UnOp#13 | UnOp#15 | UnOp#17 | UnOp#18 | UnOp#2 | UnOp#21 | UnOp#22 | UnOp#4 | UnOp#6 | addr:Alloc#3 | extract0:call:http.msgTypeFromPath#1
 //@   props C08 C10(sweep)
 //@   sweep bounds,make,nilmem
 //@   requires @tokens h.Tokens != nil
@@ -33,6 +34,7 @@ package http
 // response invalidate the token; responses 65..254 leave only encrypted
 //@ func http.Handler.writeResponse
 //@   params h ctx w msgType msg resp
+//@   local respType = extract0:call:protocol.Responder.Respond#1
 //@   props C05 C08 C10(sweep)
 //@   sweep bounds,make,nilmem
 //@   callsites Respond 1
@@ -63,6 +65,8 @@ package http
 
 //@ func http.Handler.handleError$1
 //@   params w r
+//@   local ctx = UnOp#11 | UnOp#14 | UnOp#17 | UnOp#5 | UnOp#8
+//@   local token = UnOp#2
 //@   props C08 C10(sweep)
 //@   sweep bounds,make
 //@   ensures @inval len(token) > 0 ==> invalidated(ctx) == True()
@@ -77,6 +81,8 @@ package http
 
 //@ func http.Transport.handleResponse
 //@   params t resp sess
+//@   local err = extract1:call:kex.Session.Decrypt#1 | extract1:call:strconv.ParseUint#1 | extract1:call:strconv.ParseUint#2
+//@   local msgType = Convert#2 | UnOp#69 | UnOp#73 | UnOp#77 | UnOp#81 | addr:Alloc#2
 //@   props C05 C10(sweep)
 //@   sweep bounds,make,nilmem
 //@   requires @request resp.Request != nil && resp.Request.URL != nil
